@@ -80,6 +80,23 @@ impl tau_engine::Object for Obj {
     }
 }
 
+// an object that answers `find` itself (the trait invites overriding it): whoever uses it as a document must ask `find`
+struct Marked;
+impl tau_engine::Object for Marked {
+    fn find(&self, _key: &str) -> Option<Value<'_>> {
+        Some(Value::String(Cow::Borrowed("find")))
+    }
+    fn get(&self, _key: &str) -> Option<Value<'_>> {
+        Some(Value::String(Cow::Borrowed("get")))
+    }
+    fn keys(&self) -> Vec<Cow<'_, str>> {
+        vec![]
+    }
+    fn len(&self) -> usize {
+        0
+    }
+}
+
 impl Document for Flat {
     fn find(&self, key: &str) -> Option<Value<'_>> {
         self.0.iter().find(|(k, _)| k == key).map(|(_, v)| v.as_value())
@@ -738,6 +755,20 @@ fn handle(req: &J) -> Result<J, String> {
             let o = Obj(fields);
             let r = tau_engine::Object::find(&o, &key);
             Ok(json!({"ok": true, "found": r.is_some(), "value": r.map(|v| show_value(&v))}))
+        }
+        "delegation" => {
+            // which of the object's methods answers when the object is used as a document
+            let key = bytes_to_string(&req["key"])?;
+            let m = Marked;
+            let show = |v: Option<Value<'_>>| match v {
+                Some(Value::String(s)) => s.to_string(),
+                Some(_) => "other".to_string(),
+                None => "none".to_string(),
+            };
+            let dynobj: &dyn tau_engine::Object = &m;
+            let via_dyn = show(Document::find(&dynobj, &key));
+            let via_blanket = show(Document::find(&m, &key));
+            Ok(json!({"ok": true, "dyn": via_dyn, "blanket": via_blanket}))
         }
         "aho" => {
             // ground truth for the aho-corasick contract model
